@@ -161,6 +161,7 @@ type xcluster struct {
 	// multi-worker response pool (newXClusterPool) the receiver then handles them concurrently.
 	Concurrent bool
 	handing    sync.WaitGroup // hand-over goroutines of the Concurrent mode
+	releasing  sync.WaitGroup // goroutines that hand a complete batch of buffered responses over
 
 	// Sched, when set, replaces the "all responses after all requests" delivery for every sender whose
 	// leaf plan has len(Sched.At) targets: responses are handed over at harness-owned points inside the
@@ -219,6 +220,12 @@ func newXClusterPool(workers int, brokers ...string) *xcluster {
 }
 
 func (c *xcluster) Close() {
+	c.mu.Lock()
+	for _, w := range c.midCtx {
+		w.expire()
+	}
+	c.midCtx = nil
+	c.mu.Unlock()
 	c.reqPool.Stop()
 	for _, b := range c.brokers {
 		b.pool.Stop()
@@ -501,6 +508,10 @@ func (c *xcluster) deliver(receiver string, resp *protoCommonV1.TaskResponse, fr
 	batch := c.pending[key]
 	delete(c.pending, key)
 	delete(c.expect, key)
+	// the query is over for the harness only when the whole batch has been handed over: the receiver may finish the
+	// request at an earlier response (a failure), the remaining hand-overs must not run into the next query
+	c.releasing.Add(1)
+	defer c.releasing.Done()
 	c.mu.Unlock()
 	sort.Slice(batch, func(i, j int) bool { return batch[i].from < batch[j].from })
 	names := make([]string, len(batch))
@@ -658,6 +669,9 @@ func (c *xcluster) Query(root, db, sqlText string) (*commonmodels.ResultSet, err
 	c.mu.Lock()
 	c.rootCtx = ctx
 	c.withheld = nil
+	for _, w := range c.midCtx {
+		w.expire() // the task contexts of the previous query's intermediate nodes: release their timers
+	}
 	c.midCtx = nil
 	c.mu.Unlock()
 	// every response of a scheduled delivery has reached its receiver (or was refused by it) before the
@@ -671,6 +685,7 @@ func (c *xcluster) Query(root, db, sqlText string) (*commonmodels.ResultSet, err
 		TaskMgr:      b.taskMgr,
 		TransportMgr: &xtransport{c: c, self: b.name},
 	})
+	c.releasing.Wait()
 	c.mu.Lock()
 	late := c.withheld
 	c.withheld = nil
